@@ -13,6 +13,7 @@ import (
 // three different subscriptions, syncs, a leave and a session expiry by two members.
 func TestVerifC12Enum(t *testing.T) {
 	r := verifkit.Start(t, "C12", "enum")
+	gSeedSalt = r.Seed
 	a, ab, b := []string{"ta"}, []string{"ta", "tb"}, []string{"tb"}
 	spec := gEnumSpec{
 		Cfg: gConfig{Topics: map[string]int{"ta": 2, "tb": 3}, Universe: []string{"ta", "tb"}, M: 2,
